@@ -7,7 +7,7 @@ TB = [
     "Coq 8.16.1 kernel (coqc full .vo build)",
     "hand-written model coq/Model/{Dom,Views,PropDefs,Propagate,Search}.v + Model/Props/*.v of views.rs, props/*.rs, search/{agenda,branch,mode,mod}.rs (modelled, not verified); tied by this run's differential: solution SEQUENCES of the extracted model and of selen::search::search are compared exactly, in order",
     "generic theorems hold for every propagator list satisfying the four local contracts (proved per kind in Properties/C05.v) — kinds outside that vocabulary are not covered",
-    "the root LP step (search/mod.rs:96-228) and the optimisation fast path are switched off in the correspondence runs through hook H5 and are NOT modelled (known finding D10 concerns them)",
+    "the root LP step (search/mod.rs) and the optimisation fast path are switched off in the correspondence runs through hook H5; the fast path is NOT modelled, the root LP step (repaired, finding D10) is modelled as an oracle refinement in Model/LpRoot.v (Properties/C04.v lp_tentative_sound)",
     "extraction: ExtrOcamlBasic only, no Extract Constant; OCaml driver ocaml/plevel_cmd.ml incl. the brute-force oracle over the Coq `sat`; Rust harness harness/src/plevel.rs",
     "i32 modelled as unbounded Z (InRange)",
 ]
